@@ -165,7 +165,7 @@ fn pick_reg(rng: &mut Rng, reserved: &[u8]) -> u8 {
 fn emit_simple(a: &mut Asm, rng: &mut Rng, o: &ProgOpts) {
     let r = pick_reg(rng, &o.reserved);
     let s = pick_reg(rng, &o.reserved);
-    match rng.below(17) {
+    match rng.below(18) {
         0 | 1 => {
             a.mov_imm32(r, rng.val() as u32);
             a.shape.push('m');
@@ -218,6 +218,55 @@ fn emit_simple(a: &mut Asm, rng: &mut Rng, o: &ProgOpts) {
             a.b.push(0x40 | ((r & 7) << 3) | (s & 7));
             a.b.push(rng.next() as u8);
             a.shape.push('l');
+        }
+        16 => {
+            // SSE: movups (both encodings, reg/reg and memory), xorps, movd/movq between GPR and XMM
+            let x = rng.below(16) as u8;
+            let y = rng.below(16) as u8;
+            let rex = |a: &mut Asm, w: bool, reg: u8, rm: u8| {
+                let v = 0x40 | ((w as u8) << 3) | ((reg >> 3) << 2) | (rm >> 3);
+                if v != 0x40 {
+                    a.b.push(v);
+                }
+            };
+            match rng.below(8) {
+                0 => {
+                    rex(a, false, x, y);
+                    a.b.extend_from_slice(&[0x0f, 0x10, 0xc0 | ((x & 7) << 3) | (y & 7)]); // movups x, y
+                }
+                1 => {
+                    rex(a, false, x, y);
+                    a.b.extend_from_slice(&[0x0f, 0x11, 0xc0 | ((x & 7) << 3) | (y & 7)]); // movups y, x (store encoding)
+                }
+                2 => {
+                    rex(a, false, x, y);
+                    a.b.extend_from_slice(&[0x0f, 0x57, 0xc0 | ((x & 7) << 3) | (y & 7)]); // xorps x, y
+                }
+                3 => {
+                    rex(a, false, x, 3);
+                    a.b.extend_from_slice(&[0x0f, 0x10, 0x40 | ((x & 7) << 3) | 3, (rng.below(8) as u8) * 16]); // movups x,[rbx+d]
+                }
+                4 => {
+                    rex(a, false, x, 3);
+                    a.b.extend_from_slice(&[0x0f, 0x11, 0x40 | ((x & 7) << 3) | 3, (rng.below(8) as u8) * 16]); // movups [rbx+d],x
+                }
+                5 => {
+                    a.b.push(0x66);
+                    rex(a, true, x, r);
+                    a.b.extend_from_slice(&[0x0f, 0x6e, 0xc0 | ((x & 7) << 3) | (r & 7)]); // movq x, r
+                }
+                6 => {
+                    a.b.push(0x66);
+                    rex(a, true, x, r);
+                    a.b.extend_from_slice(&[0x0f, 0x7e, 0xc0 | ((x & 7) << 3) | (r & 7)]); // movq r, x
+                }
+                _ => {
+                    a.b.push(0x66);
+                    rex(a, false, x, r);
+                    a.b.extend_from_slice(&[0x0f, 0x6e, 0xc0 | ((x & 7) << 3) | (r & 7)]); // movd x, r32
+                }
+            }
+            a.shape.push('X');
         }
         15 => {
             // sign-extension and multiply family: instructions with implicit operands (RAX / RDX)
